@@ -78,7 +78,7 @@ pub fn exec(func: &str, a: &mut Args) -> String {
 // ------------------------------------------------------------------ generators
 
 /// functions whose Lean handler exists (widened as the model grows)
-const ENABLED: &[&str] = &["ball_toi", "ball_normal"];
+const ENABLED: &[&str] = &["ball_toi", "ball_normal", "ball_posed", "ray_toi_with_ball", "bsphere_normal", "aabb_toi", "aabb_normal", "clip_aabb_line", "cuboid_toi", "cuboid_normal", "cuboid_posed", "cuboid_posed_toi", "halfspace_normal", "halfspace_posed", "triangle_normal", "triangle_inter", "segment2_normal", "segment2_posed", "capsule_normal", "cylinder_normal", "cone_normal"];
 
 const DIR_SCALES: [f64; 9] = [0.001, 0.015625, 0.125, 0.5, 1.0, 2.0, 8.0, 64.0, 1000.0];
 
@@ -282,11 +282,20 @@ pub fn gen(r: &mut Rng, thorough: bool) -> Vec<(String, String)> {
         }
         // ---------------- segment (2-D)
         {
-            let (pa, pb) = loop { let pa = d2::gen_p(r, lat, 10.0); let pb = d2::gen_p(r, lat, 10.0); if (pb - pa).norm() > 1e-2 { break (pa, pb); } };
+            // one case in 25: a short segment (2^-6) crossed at ~1 mrad by a short direction (2^-10): exercises the *absolute*
+            // parallelism threshold of `closest_points_line_line_parameters_eps` (KNOWN_FINDINGS)
+            let tiny = it % 25 == 7;
+            let (pa, pb) = if tiny { let pa = d2::gen_p(r, true, 10.0); let e = 0.015625; if r.bool() { (pa, pa + V2::new(e, 0.0)) } else { (pa, pa + V2::new(0.0, e)) } }
+                else { loop { let pa = d2::gen_p(r, lat, 10.0); let pb = d2::gen_p(r, lat, 10.0); if (pb - pa).norm() > 1e-2 { break (pa, pb); } } };
             let on = |r: &mut Rng, ext: bool| -> P2 { let t = if lat { *r.pick(&[0.0, 0.25, 0.5, 1.0]) } else { r.unit() }; let t = if ext { if r.bool() { t + 1.5 } else { -t - 0.5 } } else { t }; pa + (pb - pa) * t };
             let sd = pb - pa; let nn = V2::new(sd.y, -sd.x);
             let kind = r.below(10);
-            let (o, d) = if kind < 5 { // crossing
+            let (o, d) = if tiny {
+                let sgn = if r.bool() { 1.0 } else { -1.0 }; let k = 0.0009765625;
+                let d = sd * (k / 0.015625) * sgn + nn * (k * k / 0.015625) * if r.bool() { 1.0 } else { -1.0 };
+                let hit = pa + sd * *r.pick(&[0.25, 0.5, 0.75]);
+                (hit - d, d)
+            } else if kind < 5 { // crossing
                 let e0 = r.below(4) == 0; let t = on(r, e0);
                 let off = if lat { V2::new(r.lattice(8, 1), r.lattice(8, 1)) } else { d2::gen_v(r, false, 10.0) };
                 let o = t + off; let d = if r.below(6) == 0 { o - t } else { t - o };
